@@ -26,6 +26,7 @@ JUNK = [x for x in envstr("VF_JUNK", "").split(";") if x]        # concrete junk
 JPRE = envstr("VF_JPRE", "")                                     # symbolic junk: root-relative prefix
 JSUF = envstr("VF_JSUF", "")
 LISTLEG = envint("VF_LISTLEG", 1)
+LISTFIRST = envint("VF_LISTFIRST", 0)
 import os as _os  # noqa: E402
 
 CONFIGS = list(conf.path_configs.keys())
@@ -164,6 +165,14 @@ def paths_agree(i: int, k: int) -> bool:
         return True
     entries = [EPRE + a + ESUF] + FIXED
     want = None
+    if LISTFIRST:
+        # the list Finder answers the search FIRST (spil's caches ON), the file-system Finders afterwards
+        env.clear_caches()
+        kept0, _p = _universe(entries, CONFIGS[0], j)
+        try:
+            list(FindInList([e for (_t, e) in _typed_ancestors(kept0)]).find(SEARCH, as_sid=False))
+        except SpilException:
+            pass
     for c in CONFIGS:
         kept, paths = _universe(entries, c, j)
         globstub.UNIVERSE[:] = paths
